@@ -200,7 +200,9 @@ func Run(dir, tier string, seed int64) error {
 		_, verr := ctx.Validate(root.Copy())
 		if verr != nil {
 			class := "enveloped-signature-invalid"
-			if !plain {
+			if terr != nil {
+				class = "enveloped-signature-invalid:document-outside-the-modelled-class" // e.g. a prefixed attribute the signer cannot handle
+			} else if !plain {
 				class = "enveloped-signature-invalid:value-needs-c14n-escaping"
 			}
 			desc["document"] = string(doc)
@@ -388,6 +390,52 @@ func Run(dir, tier string, seed int64) error {
 			}
 		}
 	}
+	// ---- what the SP says about itself must not switch signing off: WantAssertionsSigned / AuthnRequestsSigned in every spelling
+	{
+		env, err := idp.NewEnv(idp.EnvConfig{Issuer: sso.IssuerURL})
+		if err != nil {
+			return err
+		}
+		st := env.Storage
+		u := &idp.User{Email: "a@example.com", Username: "alice", UserID: "u1"}
+		st.Users["u1"] = u
+		st.Logins["alice"] = u
+		respCert, _ := x509.ParseCertificate(st.RespKey.Certificate)
+		for _, was := range []*string{nil, idp.S("true"), idp.S("false"), idp.S("1"), idp.S("0"), idp.S("")} {
+			st.ClearSPs()
+			m := sso.BaseSP(nil, true)
+			m.WantAssertionsSigned = was
+			if _, err := st.Register("app-1", m); err != nil {
+				continue
+			}
+			st.Apps["app-1"] = sso.SPEntity
+			d := func() map[string]interface{} { return map[string]interface{}{"WantAssertionsSigned": was} }
+			unsigned := func(what string, doc []byte) bool {
+				x := etree.NewDocument()
+				if x.ReadFromBytes(doc) != nil {
+					return false
+				}
+				if a := x.FindElement("//Assertion"); a == nil || a.SelectElement("Signature") == nil {
+					fail("success-assertion-unsigned", fmt.Sprintf("%s: a Success assertion left the IdP without a signature (SP metadata WantAssertionsSigned=%v)", what, was), d())
+					id++
+					return true
+				}
+				return false
+			}
+			st.Requests["w1"] = &idp.AuthReq{ID: "w1", AppID: "app-1", RelayState: "rs", ACS: "https://sp.example/acs/post", Binding: idp.PostBinding, AuthReqID: "_r", UserID: "u1", IsDone: true}
+			if rep := env.Do(idp.ReqSpec{Method: http.MethodGet, Path: "/login", Query: []idp.Param{idp.Q("id", "w1")}}.HTTP()); rep.Msg != nil && strings.HasSuffix(rep.Status, ":Success") {
+				if !unsigned("post-response", rep.Msg) {
+					checkEnveloped("post-response-sp-flags", rep.Msg, "Assertion", respCert, d())
+				}
+			}
+			aq := `<soap:Envelope xmlns:soap="http://schemas.xmlsoap.org/soap/envelope/"><soap:Body><samlp:AttributeQuery xmlns:samlp="urn:oasis:names:tc:SAML:2.0:protocol" xmlns:saml="urn:oasis:names:tc:SAML:2.0:assertion" ID="_aqw" Version="2.0" IssueInstant="2024-01-01T00:00:00Z"><saml:Issuer>` + sso.SPEntity + `</saml:Issuer><saml:Subject><saml:NameID>alice</saml:NameID></saml:Subject></samlp:AttributeQuery></soap:Body></soap:Envelope>`
+			if rep := env.Do(idp.ReqSpec{Method: http.MethodPost, Path: "/attribute", RawBody: &aq}.HTTP()); rep.Msg != nil && strings.HasSuffix(rep.Status, ":Success") {
+				if !unsigned("attribute-response", rep.Msg) {
+					checkEnveloped("attribute-response-sp-flags", rep.Msg, "Assertion", respCert, d())
+				}
+			}
+		}
+	}
 	// ---- large, poorly compressible responses (long redirect URLs, big forms): still signed, still verifying
 	{
 		for _, alg := range []string{idp.RSASHA256, idp.RSASHA1} {
@@ -488,7 +536,7 @@ func Run(dir, tier string, seed int64) error {
 			checkEnveloped("metadata-mismatched-pair", rep.Body, "EntityDescriptor", metaCert, d())
 		}
 	}
-	run.Res.Rule = "18 values (each character Canonical XML escapes: & < > CR in text, & < double-quote TAB LF CR in attribute values; apostrophe, leading / trailing / double space, multi-byte and supplementary-plane code points, entity look-alikes, CDATA terminator, a URL with & in its query) placed in every string that reaches a signed artefact (user attributes and custom attribute names / formats / values, NameID, audience = SP entity ID, recipient = consumer URL, request ID, RelayState, organisation and contact data) x {rsa-sha256, rsa-sha1} x artefacts {POST-binding response assertion (full user record; record with a login name only), attribute-query response assertion (all attributes / one requested / none matching), signed metadata, Redirect-binding query signature for consumer URLs with and without a query}: each enveloped signature is validated with goxmldsig and the published certificate; the signed element (without its Signature) goes to Coq as a tree together with the signer's digest input (whose hash must equal the emitted DigestValue) and goxmldsig's exclusive canonical form; each redirect URL is verified by the SAML Bindings 3.4.4.1 procedure on its raw query and compared with the generated BuildRedirectQuery; stored binding {POST, Redirect} x consumer URL {set, empty} are probed for a Success assertion without signature; responses carrying 2 / 16 / 64 kB of incompressible attribute data over both bindings must still be signed and verify; a storage handing out a certificate and a key of different pairs must not lead to an artefact whose signature fails under the published certificate. distinct = (artefact, value class, verdict)."
+	run.Res.Rule = "18 values (each character Canonical XML escapes: & < > CR in text, & < double-quote TAB LF CR in attribute values; apostrophe, leading / trailing / double space, multi-byte and supplementary-plane code points, entity look-alikes, CDATA terminator, a URL with & in its query) placed in every string that reaches a signed artefact (user attributes and custom attribute names / formats / values, NameID, audience = SP entity ID, recipient = consumer URL, request ID, RelayState, organisation and contact data) x {rsa-sha256, rsa-sha1} x artefacts {POST-binding response assertion (full user record; record with a login name only), attribute-query response assertion (all attributes / one requested / none matching), signed metadata, Redirect-binding query signature for consumer URLs with and without a query}: each enveloped signature is validated with goxmldsig and the published certificate; the signed element (without its Signature) goes to Coq as a tree together with the signer's digest input (whose hash must equal the emitted DigestValue) and goxmldsig's exclusive canonical form; each redirect URL is verified by the SAML Bindings 3.4.4.1 procedure on its raw query and compared with the generated BuildRedirectQuery; stored binding {POST, Redirect} x consumer URL {set, empty} are probed for a Success assertion without signature; SP metadata with WantAssertionsSigned absent / true / false / 1 / 0 / empty must not switch signing off; responses carrying 2 / 16 / 64 kB of incompressible attribute data over both bindings must still be signed and verify; a storage handing out a certificate and a key of different pairs must not lead to an artefact whose signature fails under the published certificate. distinct = (artefact, value class, verdict)."
 	return run.Finish()
 }
 
